@@ -338,12 +338,12 @@ func (c *nfClient) PostAssign(e *Engine, st *State, lhs, rhs []ast.Expr, _ ast.S
 	info := e.Info
 	// save / restore of the cursor
 	if len(lhs) == 1 {
-		if sel, ok := ast.Unparen(rhs[0]).(*ast.SelectorExpr); ok && sel.Sel.Name == "pos" && c.recv != nil && objOf(info, sel.X) == c.recv {
+		if sel, ok := ast.Unparen(rhs[0]).(*ast.SelectorExpr); ok && selName(sel) == "pos" && c.recv != nil && objOf(info, sel.X) == c.recv {
 			if k := e.CanonSt(st, lhs[0]); k.OK {
 				return st.WithExt("save:"+e.objKey(objOf(info, lhs[0])), cntOf(st))
 			}
 		}
-		if sel, ok := ast.Unparen(lhs[0]).(*ast.SelectorExpr); ok && sel.Sel.Name == "pos" && c.recv != nil && objOf(info, sel.X) == c.recv {
+		if sel, ok := ast.Unparen(lhs[0]).(*ast.SelectorExpr); ok && selName(sel) == "pos" && c.recv != nil && objOf(info, sel.X) == c.recv {
 			if o := objOf(info, rhs[0]); o != nil {
 				if saved := st.Ext("save:" + e.objKey(o)); saved != "" {
 					return st.WithExt("cnt", saved)
